@@ -203,7 +203,9 @@ def pydicomNative (conv : List Int → List Int) (p : Params) (rows cols samples
   let dt ← decodedDType p.bitsAllocated p.pixelRepresentation
   let n := rows * cols * samples
   let want := n * dt.itemsize
-  if shapeInRange rows cols = false then .error .value
+  -- pydicom: "'Samples per Pixel' value of '2' is invalid, it must be 1 or 3"
+  if samples ≠ 1 ∧ samples ≠ 3 then .error .value
+  else if shapeInRange rows cols = false then .error .value
   else if bytes.length < want then .error .value
   else if bytes.length > want + 1 then .error .other
   else
@@ -224,6 +226,7 @@ def decodeFrame (c : CodecImpl) (conv : List Int → List Int) (p : Params) (row
     if bits.length = rows * cols * samples then .ok (bits.map (fun b => if b then 1 else 0))
     else .error .value
   else if route = 2 then pydicomNative conv p rows cols samples bytes
+  else if samples ≠ 1 ∧ samples ≠ 3 then .error .value      -- pydicom refuses any other Samples per Pixel (also encapsulated)
   else if shapeInRange rows cols = false then .error .value
   else do
     let vals ← c.dec p rows cols samples bytes
